@@ -21,6 +21,11 @@ def main():
         demos = [f for f in glob.glob(os.path.join(src, '*')) if f.endswith('_test.go') or (f.endswith('.go') and 'demo' in f)]
         for d in demos: shutil.copy(d, scratch)
         demo_names = ' '.join(os.path.basename(d) for d in demos)
+        hook = os.path.join(src, 'demo_hook.diff')
+        if os.path.exists(hook):
+            # a clearly marked demo-only hook in the library (to hit the window deterministically); removed again before the checks run
+            rc, o = sh(['git', 'apply', hook], cwd=scratch)
+            meta['demo_hook'] = 'applied' if rc == 0 else 'did not apply: ' + o[:200]
         run_pat = 'Demo'
         rc0, o0 = sh(['go', 'test', '-vet=off', '-count=1', '-run', run_pat, '.'], cwd=scratch, timeout=900)
         meta['demo_without_change'] = 'pass' if rc0 == 0 else 'FAIL'
@@ -32,6 +37,8 @@ def main():
         meta['demo_with_change'] = 'pass' if rc1 == 0 else 'fail'
         meta['ran'].append('go test -run %s (demo files: %s): without change %s, with change %s' % (run_pat, demo_names, meta['demo_without_change'], meta['demo_with_change']))
         for d in demos: os.remove(os.path.join(scratch, os.path.basename(d)))
+        if os.path.exists(hook) and meta.get('demo_hook') == 'applied':
+            sh(['git', 'apply', '-R', hook], cwd=scratch)
         meta['checks'] = {}
         for p in props:
             t = time.time()
